@@ -685,6 +685,31 @@ pub fn run_conc(a: &Args) {
         out.case(&format!("conc {:?} threads {} per {} sizes {:?}", t, nthreads, per, sizes), &format!("{} {} {} {}", got.len(), corrupt, dup, order));
         if na.shutdown() | nb.shutdown() { out.violation("[C17,C10] event processing panicked"); }
     }
+    // the peer floods the connection with noise (so the sender's own network thread is busy with,
+    // or queued for, that connection all the time) while a plain thread sends stop-and-wait:
+    // a message whose send() answered Sent must arrive although nothing is sent after it
+    for t in [Transport::Ws, Transport::FramedTcp] {
+        let Some((na, nb, _lid, ep_a, ep_b)) = connect_pair(t) else { continue };
+        let stop = Arc::new(AtomicBool::new(false));
+        let noise = { let (ctl, stop) = (na.ctl.clone(), stop.clone()); std::thread::spawn(move || { while !stop.load(Ordering::SeqCst) { ctl.send(ep_a, &[b'N'; 32]); } }) };
+        let rounds = if a.thorough { 1500 } else { 300 };
+        let mut lost = None;
+        for i in 0..rounds {
+            let m = tagged(7, i, 100);
+            let st = nb.ctl.send(ep_b, &m);
+            let want = i as usize + 1;
+            let ok = na.wait(2000, |_| na.messages_of(ep_a.resource_id()).len() >= want);
+            if st != SendStatus::Sent || !ok { lost = Some((i, st)); break; }
+        }
+        stop.store(true, Ordering::SeqCst);
+        noise.join().unwrap();
+        if let Some((i, st)) = lost {
+            out.violation(&format!("[C10] {:?}: while the peer floods the connection, message #{} sent from a plain thread (send() answered {:?}) was not delivered within 2 s and nothing was sent after it", t, i, st));
+        }
+        out.count("conc_stop_and_wait_under_noise");
+        out.case(&format!("conc stopandwait noise {:?}", t), &format!("{}", lost.is_none()));
+        if na.shutdown() | nb.shutdown() { out.violation("[C17,C10] event processing panicked"); }
+    }
     out.finish();
 }
 
